@@ -545,6 +545,123 @@ def kwargs_stream(ctx, n_cases, present):
     return rows, bad_rows, {f"{a}/{x}": c for (a, x), c in sorted(hist.items())}
 
 
+def reuse_stream(ctx, n_cases, present):
+    """hidden state: ONE inverse operator used for a sequence of products (right-hand sides whose scale shrinks / grows by 1e-3..1e-12, equal and different
+    shapes, left products, the first right-hand side again), ONE algorithm object used for several operators, and operators rebuilt through
+    flatten()/unflatten() with changed leaves after a first solve.  Every product is checked against the contract of a fresh call (plain numpy oracle):
+    relative residual <= 10*tol for CG / GMRES, <= 1e-10 for the direct algorithms."""
+    import cola
+    from cola.linalg import inv, solve, CG, GMRES, LU, Cholesky, Auto
+    from props.c11 import scale_leaves
+    r = ctx.rng
+    g = L.GenInv(r, present)
+    pad = bool({"inv_gmres_padding_singular", "inv_gmres_padding_singular_complex"} & set(present))
+    rows, bad_rows = [], []
+
+    def rhs(n, k, cplx, scale):
+        b = np.array([r.randint(1, 3) * r.choice([-1, 1]) + (1j * r.randint(-2, 2) if cplx else 0) for _ in range(n * max(k, 1))], dtype=complex if cplx else float)
+        return (b.reshape((n,) if k == 0 else (n, k))) * scale
+
+    for ci in range(n_cases):
+        cplx = r.random() < 0.3
+        n = r.choice([2, 3, 4, 5, 6, 8])
+        algn = r.choice(["CG", "CG", "GMRES", "GMRES", "LU", "Cholesky", "Auto"])
+        psd = algn in ("CG", "Cholesky") or (algn == "Auto" and r.random() < 0.5)
+        if psd:
+            Lo = g.lower(n, cplx, posdiag=True)
+            M = Lo @ Lo.conj().T
+        else:
+            M = g.unimod(n, cplx)
+        if np.linalg.cond(M) > 300:
+            continue
+        dt = L.C128 if cplx else L.F64
+        t = dict(k="Dense", dt=dt, a=g.gmat(M))
+        tol = r.choice([1e-8, 1e-8, 1e-10, 1e-6])
+
+        def mk():
+            if algn == "CG":
+                return CG(tol=tol)
+            if algn == "GMRES":
+                return GMRES(tol=tol, max_iters=(n if pad else r.choice([n, 50])))
+            return dict(LU=LU, Cholesky=Cholesky, Auto=Auto)[algn]()
+        bound = 10 * tol if algn in ("CG", "GMRES") else 1e-10
+        mode = r.choice(["one_inverse", "one_inverse", "one_inverse", "one_algorithm", "rebuild"])
+        row = dict(alg=algn, n=n, cplx=cplx, tol=tol, mode=mode)
+        bad = []
+        worst = 0.0
+
+        def check(tag, D, x, b, left=False):
+            nonlocal worst
+            x = np.asarray(x)
+            if x.shape != b.shape:
+                bad.append(f"{tag}: shape {x.shape}")
+                return
+            res = float(np.linalg.norm((x @ D if left else D @ x) - b) / np.linalg.norm(b))
+            worst = max(worst, res / bound)
+            if not res <= bound:
+                bad.append(f"{tag}: relative residual {res:.2e} > {bound:.0e}")
+        try:
+            with np.errstate(all="ignore"):
+                A = L.build(t)
+                if psd:
+                    A = cola.PSD(A)
+                D = T.dense(t)
+                if mode == "one_inverse":
+                    X = inv(A, mk())
+                    k = r.choice([0, 1, 2])
+                    scale = 1.0
+                    direction = r.choice([1e-3, 1e-6, 1e-9, 1e-12, 1e3, 1e6])
+                    b_first = None
+                    steps = r.randint(3, 5)
+                    seq = []
+                    for si in range(steps):
+                        kind = r.choice(["right", "right", "right", "left", "othershape"]) if si else "right"
+                        kk = k if kind != "othershape" else (k + 1) % 3
+                        if kind == "left":
+                            b = rhs(n, max(kk, 1), cplx, scale).T
+                            check(f"step {si} b@inv scale {scale:.0e}", D, b @ X, b, left=True)
+                        else:
+                            b = rhs(n, kk, cplx, scale)
+                            check(f"step {si} inv@b scale {scale:.0e}", D, X @ b, b)
+                            if b_first is None:
+                                b_first, x_first = b, np.asarray(X @ b)
+                        seq.append((kind, scale))
+                        if r.random() < 0.8:
+                            scale *= direction
+                    x_again = np.asarray(X @ b_first)     # the first right-hand side again: same answer as the first time
+                    check("first right-hand side again", D, x_again, b_first)
+                    if algn in ("LU", "Cholesky", "Auto") and not np.array_equal(x_again, np.asarray(inv(A, mk()) @ b_first)):
+                        bad.append("a used inverse and a fresh one differ on the same right-hand side")
+                    row["sequence"] = [f"{k_}:{s_:.0e}" for k_, s_ in seq]
+                elif mode == "one_algorithm":
+                    alg = mk()
+                    Lo2 = g.lower(n, cplx, posdiag=True)
+                    M2 = Lo2 @ Lo2.conj().T if psd else g.unimod(n, cplx)
+                    A2 = L.build(dict(k="Dense", dt=dt, a=g.gmat(M2)))
+                    A2 = cola.PSD(A2) if psd else A2
+                    b1, b2, b3 = rhs(n, 1, cplx, 1.0), rhs(n, 1, cplx, 1e-6), rhs(n, 0, cplx, 1e3)
+                    check("A1 first", D, solve(A, b1, alg), b1)
+                    check("A2 with the same algorithm object", M2, solve(A2, b2, alg), b2)
+                    check("A1 again", D, inv(A, alg) @ b3, b3)
+                else:   # rebuild through the pytree interface after a first solve
+                    b1 = rhs(n, 1, cplx, 1.0)
+                    check("before rebuild", D, inv(A, mk()) @ b1, b1)
+                    c = r.choice([2.0, 4.0, 3.0])
+                    A2 = scale_leaves(A, c)
+                    if r.random() < 0.5:
+                        A2 = A2.to(None)
+                    D2 = T.dense(L.reflect(A2))
+                    check("after rebuild (inv)", D2, inv(A2, mk()) @ b1, b1)
+                    check("after rebuild (solve)", D2, solve(A2, b1, mk()), b1)
+        except Exception as e:
+            bad.append(f"raised {type(e).__name__}: {str(e)[:160]}")
+        row["worst_over_bound"] = worst
+        rows.append(row)
+        if bad:
+            bad_rows.append(dict(oracle_fail=True, case=dict(tree=t, **row), failed_clauses=bad))
+    return rows, bad_rows
+
+
 def large_cases(ctx, present):
     """both sides of the 10^6-entry switch of Auto with a matrix-free operator"""
     import cola
@@ -637,6 +754,9 @@ def run(ctx):
     # optional arguments of the iterative algorithm objects
     kw_rows, kw_bad, kw_hist = kwargs_stream(ctx, ctx.budget(150, 1200), present)
     mism += kw_bad
+    # hidden state on inverse operators / algorithm objects / rebuilt operators
+    ru_rows, ru_bad = reuse_stream(ctx, ctx.budget(160, 1200), present)
+    mism += ru_bad
     # ---- model vs implementation inside Coq
     shard = ctx.budget(60, 120)
     jobs = []
@@ -684,7 +804,7 @@ def run(ctx):
             for k in set(T.kinds_of(c["reflected"])):
                 kh[k] = kh.get(k, 0) + 1
     return dict(
-        evaluations=len(terms) + len(big_rows) + len(kw_rows), distinct_nontrivial=distinct,
+        evaluations=len(terms) + len(big_rows) + len(kw_rows) + len(ru_rows), distinct_nontrivial=distinct,
         rule="random invertible operator trees (unimodular/triangular/diagonal/permutation/tridiagonal/sparse/Householder leaves, Product incl. non-square factors, Kronecker, "
              "BlockDiag with multiplicities, Sum, Transpose/Adjoint, Sliced, Concatenated; PSD-declared, PSD-undeclared and Unitary-declared families; real and complex; "
              "constructors and public combinators) x 6 algorithm classes; non-trivial = depth>=2, distinct by reflected tree hash; plus 4 matrix-free operators of 1000 and 1001 rows",
@@ -693,6 +813,8 @@ def run(ctx):
         extra=dict(trees=len(cases), kind_histogram=kh, algorithm_histogram=alg_hist, outcome_histogram=err_hist, result_head_types=type_hist,
                    families={f: sum(1 for c in cases if c["fam"] == f) for f in ("inv", "psd", "psd_undecl", "uni")},
                    complex_trees=sum(1 for c in cases if c["cplx"]),
+                   reuse_cases=len(ru_rows), reuse_modes={m_: sum(1 for r_ in ru_rows if r_['mode'] == m_) for m_ in ('one_inverse', 'one_algorithm', 'rebuild')},
+                   reuse_worst_residual_over_bound=max((r_['worst_over_bound'] for r_ in ru_rows), default=0.0),
                    skipped_false_annotations=wrong_ann, iterative_kwargs_cases=len(kw_rows), iterative_kwargs_histogram=kw_hist,
                    iterative_kwargs_max_residual_over_bound=max((r_['residual'] / r_['bound'] for r_ in kw_rows if 'residual' in r_), default=0.0),
                    precision_histogram={('single' if c.get('single') else 'double'): sum(1 for c2 in cases if bool(c2.get('single')) == bool(c.get('single'))) for c in cases},
